@@ -554,12 +554,14 @@ __setlocale(const char *ln, size_t lz, void(*setf)(struct loc_s))
 			goto clo;
 		}
 
-		/* none of the locales should be a prefix to another */
-		if (UNLIKELY((l = xmemmem(m, fz, ln, lz)) == NULL)) {
+		/* the name must make up a whole line, zh_TW is in lzh_TW */
+		for (l = m; (l = xmemmem(l, fz - (l - m), ln, lz)) != NULL &&
+			     !((l == m || l[-1] == '\n') &&
+			       l + lz < m + fz && l[lz] == '\n'); l++);
+
+		if (UNLIKELY(l == NULL)) {
 			;
-		} else if (UNLIKELY(l[lz++] != '\n')) {
-			;
-		} else if (snarf_ln(&loc, l + lz, fz - (l + lz - m)) < 0) {
+		} else if (snarf_ln(&loc, l + lz + 1U, fz - (l + lz + 1U - m)) < 0) {
 			/* ... so we've found the one match
 			 * but reading the locale lines went pearshaped */
 			;
